@@ -144,6 +144,12 @@ def _run_one(job):
     new, info = v
     info.update({"file": rel, "function": qual})
     os.environ["TYVERIF_NOEXPECT"] = ""
+    import signal
+
+    def _alarm(signum, frame):
+        raise TimeoutError("variant analysis exceeded the time limit")
+    signal.signal(signal.SIGALRM, _alarm)
+    signal.alarm(int(os.environ.get("TYVERIF_VARIANT_TIMEOUT", "25")))
     try:
         ctx = run_property(prop, tier="quick", root=root, overlay={rel: new})
         refuted = [o for o in ctx.obligations if not o.ok and (o.rule, o.construct) not in base_keys]
@@ -158,9 +164,14 @@ def _run_one(job):
     except AnalysisError as e:
         info["outcome"] = "unanalysable"
         info["by"] = [str(e)[:100]]
+    except TimeoutError as e:
+        info["outcome"] = "unanalysable"
+        info["by"] = ["timeout: %s" % e]
     except Exception as e:   # a crash of the checker on a variant is a checker bug worth seeing
         info["outcome"] = "checker-crash"
         info["by"] = ["%s: %s" % (type(e).__name__, str(e)[:100])]
+    finally:
+        signal.alarm(0)
     return info
 
 
